@@ -86,15 +86,33 @@ const (
 
 // saveMapGob saves a map to a file using gob encoding.
 func saveMapGob[K comparable, V any](filePath string, data map[K]V) error {
-	file, err := os.Create(filePath)
+	// Write to a temporary file and rename it over the final one: the node
+	// refuses to start on a cache file it cannot decode, so a crash in the
+	// middle of the write must never leave a truncated file under filePath.
+	tmpPath := filePath + ".tmp"
+	file, err := os.Create(tmpPath)
 	if err != nil {
-		return fmt.Errorf("failed to create file %s: %w", filePath, err)
+		return fmt.Errorf("failed to create file %s: %w", tmpPath, err)
 	}
-	defer file.Close()
 
 	encoder := gob.NewEncoder(file)
 	if err := encoder.Encode(data); err != nil {
+		_ = file.Close()
+		_ = os.Remove(tmpPath)
 		return fmt.Errorf("failed to encode to file %s: %w", filePath, err)
+	}
+	if err := file.Sync(); err != nil {
+		_ = file.Close()
+		_ = os.Remove(tmpPath)
+		return fmt.Errorf("failed to sync file %s: %w", tmpPath, err)
+	}
+	if err := file.Close(); err != nil {
+		_ = os.Remove(tmpPath)
+		return fmt.Errorf("failed to close file %s: %w", tmpPath, err)
+	}
+	if err := os.Rename(tmpPath, filePath); err != nil {
+		_ = os.Remove(tmpPath)
+		return fmt.Errorf("failed to move %s to %s: %w", tmpPath, filePath, err)
 	}
 	return nil
 }
